@@ -117,3 +117,10 @@ def check_entry(key, labels):
     if len(labels) != len(want) and not (dup or missing or extra):
         probs.append(f"{len(labels)} labels, expected {len(want)}")
     return probs
+
+
+def spec_label(label: str) -> str:
+    """Stable name of a table for the frozen specification (function-local tables lose their offset)."""
+    if ":<dict@" in label:
+        return label.split(":<dict@")[0] + ":<local>"
+    return label
